@@ -1,4 +1,5 @@
 import GroupbyVerif.Props.C04
+import GroupbyVerif.Generated.Constants
 import GroupbyVerif.Props.C03
 import GroupbyVerif.Model.GroupBy
 
@@ -105,5 +106,14 @@ theorem source_transform_eq_lookup (kn : Kernel) (k : Kind) (ng : Nat) (sel : Li
 example :
     let slots := (C03.srcRun .sum .f 3 [(0, .num 1), (1, .num 5), (0, .num 2)]).1
     ([0, 1, -1, 0].map fun c => slots (normI 3 c)) = [.num 3, .num 5, .num 0, .num 3] := by decide
+
+/-- the Python around the kernels has the shape `transformRows` / `source_transform_eq_lookup` stand for (facts
+re-extracted from the AST of `core.py` on every run): every kernel call gets `ngroups + 1` slots, also per key chunk
+(`len(pointer) + 1`); the per-chunk results drop the null slot (`result[:-1]`, `counts[j][:-1]`) before they are merged
+into a target of `len(result_index) + 1` slots; `transform=True` is `result[self.group_ikey]` -/
+theorem source_transform_shape :
+    Generated.Constants.kernelCallHasNullSlot = true ∧ Generated.Constants.chunkedKernelCallHasNullSlot = true ∧
+    Generated.Constants.chunkedTargetHasNullSlot = true ∧ Generated.Constants.chunkResultsDropNullSlot = true ∧
+    Generated.Constants.transformBroadcastsByCodes = true := by decide
 
 end GV.C07
